@@ -10,9 +10,13 @@ PROPERTY = "C05"
 META = {
     "bounds": "vertices per chip <= 3 (quick) / 4 (thorough) on one chip plus "
               "optionally one vertex on a second chip whose capacities are a "
-              "resource exception; <= 2 resources; <= 2 (3) global and <= 1 "
-              "(2) per-chip reservations per resource, in arbitrary relative "
-              "position and list order; alignment in {1,2,3,4,8}; all "
+              "resource exception; <= 2 resources; <= 2 global and <= 1 "
+              "per-chip reservations per resource (3 global in the "
+              "completeness units), in arbitrary relative position and list "
+              "order; the exact combinations are the unit names in the "
+              "evidence (larger combinations -- 3 vertices with 3 global or "
+              "2+1 reservations, 2+2 reservations -- did not finish within "
+              "the thorough budget and were dropped); alignment in {1,2,3,4,8}; all "
               "demands, capacities and reservation bounds are unbounded "
               "symbolic integers >= 0 (zero-size demands and empty "
               "reservations included)",
@@ -187,14 +191,10 @@ def units(tier, seed):
     if tier == "thorough":
         for al in (2, 3, 4, 8):
             add(3, 1, 2, 0, al, False, False, split=6)
-        add(3, 1, 2, 1, 1, False, False, split=7)
         add(2, 2, 1, 0, 2, True, False, split=7)
         add(2, 1, 1, 1, 3, True, False, split=7)
-        add(3, 1, 3, 0, 1, False, False, split=7)
         add(4, 1, 1, 0, 1, False, False, split=6)
         add(4, 1, 2, 0, 1, False, False, split=8)
-        add(3, 2, 1, 1, 2, True, False, split=7)
-        add(2, 1, 2, 2, 1, False, False, split=7)
         add(4, 1, 2, 0, 1, False, True, split=8)
         add(3, 1, 3, 0, 1, False, True, split=7)
         add(3, 1, 2, 1, 1, False, True, split=7)
